@@ -11,7 +11,9 @@
 package fetcher
 
 import (
+	"bytes"
 	"context"
+	"sort"
 
 	"github.com/sourcenetwork/corekv"
 
@@ -19,6 +21,7 @@ import (
 	"github.com/sourcenetwork/defradb/errors"
 	"github.com/sourcenetwork/defradb/internal/connor"
 	"github.com/sourcenetwork/defradb/internal/db/id"
+	"github.com/sourcenetwork/defradb/internal/encoding"
 	"github.com/sourcenetwork/defradb/internal/keys"
 	"github.com/sourcenetwork/defradb/internal/planner/filter"
 	"github.com/sourcenetwork/defradb/internal/planner/mapper"
@@ -463,6 +466,31 @@ func (f *indexFetcher) newInIndexIterator(
 	}
 
 	isUnique := isUniqueFetchByFullKey(&f.indexDesc, fieldConditions)
+
+	// If the requested ordering is served by this index (the planner drops the order node in that
+	// case) the values must be visited in index order and not in the order they were listed.
+	ordered, reverse := CanBeOrderedByIndex(f.ordering, f.indexDesc, f.mapping)
+	if ordered {
+		descending := f.indexDesc.Fields[0].Descending
+		encoded := make(map[int][]byte, len(inValues))
+		indexes := make([]int, len(inValues))
+		for i, v := range inValues {
+			encoded[i] = encoding.EncodeFieldValue(nil, v, descending)
+			indexes[i] = i
+		}
+		sort.SliceStable(indexes, func(a, b int) bool {
+			c := bytes.Compare(encoded[indexes[a]], encoded[indexes[b]])
+			if reverse {
+				return c > 0
+			}
+			return c < 0
+		})
+		sortedValues := make([]client.NormalValue, len(inValues))
+		for i, ind := range indexes {
+			sortedValues[i] = inValues[ind]
+		}
+		inValues = sortedValues
+	}
 
 	inIter := &inIndexIterator{
 		inValues:        inValues,
